@@ -15,6 +15,13 @@ DETECT = {
          "note": "the engine generator's hostile profile only sent random garbage at first and missed it; structured mutations of valid packets (length-prefix edits, truncations with fixed-up remaining length) were added because of this seed"},
  "C16": {"checks": "./check C16", "result": "VIOLATION with failing input: a shared filter with a wildcard passes send-time validation although the server announced wildcard subscriptions unavailable (conforms = false)", "note": ""},
  "C20": {"checks": "./check C20", "result": "VIOLATION with failing input: 3.1.1 defaults overwrite a user-set retry limit / drain policy when only one of the two is set", "note": ""},
+ "C01": {"checks": "./check C01", "result": "VIOLATION with failing input: monitor 102 (a subscribe completed successfully by a SUBACK that does not hold one reason code per requested entry) + lock-step difference (outcome, st, done)", "note": ""},
+ "C05": {"checks": "./check C05", "result": "VIOLATION with failing input: monitor 502 (a QoS 2 publish whose id was received and not yet released is surfaced a second time after a session-resuming reconnect) + lock-step difference in q2in",
+         "note": "first run: only no-failing-input-found (q2in differed; the surfacing monitor existed only as a stub and was not wired). Monitor 502 (exactly-once surfacing, in wire order, tolerant of calls that returned an error) was written because of this seed; the simulated broker now keeps its inbound QoS 2 session state across session-resuming reconnects and retransmits unreleased publishes"},
+ "C06": {"checks": "./check C06 (also C04 monitor 401, C10 monitor 1001)", "result": "VIOLATION with failing input: monitor 602 (a DUP publish carries a packet id different from the one its operation was transmitted with in this session)",
+         "note": "first run: only no-failing-input-found (rq/uq differed at the close; the history ended before the wrong id reached the wire). Two strengthenings because of this seed: (1) after a divergence the driver now searches for a failing input by draining the diverged state through a well-behaved broker (reconnect with session present, acknowledge everything, close, reconnect, drain again) so that a state difference reaches the wire; (2) monitor 602 states the retransmission-identifier clause of C06 directly"},
+ "C08": {"checks": "./check C08", "result": "VIOLATION with failing input: monitor 801 (the engine reports no service time although the high-priority queue holds sendable work) + lock-step difference in nst", "note": ""},
+ "C10": {"checks": "./check C10", "result": "VIOLATION with failing input: monitor 1001 (a user-queue operation is transmitted while a retransmission is still waiting) + lock-step differences", "note": ""},
 }
 sid = sys.argv[1]
 d = "/verif/seeded/%s" % sid
